@@ -58,6 +58,9 @@ def suites(rng, tier):
         lines = G.val_exhaustive(rng, "fl", n["ex"])
         out.append({"suite": "txval", "name": "txval-fl-exhaustive", "lines": lines,
                     "distribution": {"alphabet": G.ALPHABETS["fl"], "max_len": n["ex"], "lists": len(lines)}})
+        lines = G.val_exhaustive(rng, "fl_accts", n["ex"] + 1)
+        out.append({"suite": "txval", "name": "txval-fl-account-lists", "lines": lines,
+                    "distribution": {"alphabet": G.ALPHABETS["fl_accts"], "max_len": n["ex"] + 1, "lists": len(lines)}})
         lines = G.val_exhaustive(rng, "small_fl", n["small"])
         out.append({"suite": "txval", "name": "txval-smallfl-exhaustive", "lines": lines,
                     "distribution": {"alphabet": G.ALPHABETS["small_fl"], "max_len": n["small"], "lists": len(lines)}})
@@ -102,7 +105,7 @@ def oracle_val(case, impl):
         if ixs[cur][0] != 1:
             return _v("start-accepted-in-cpi", f"current instruction {cur} is not a marginfi instruction")
         pe, de, le, ae = ixs[e]
-        if pe != 1 or de != "EF" or le < 8 or ae != 1:
+        if pe != 1 or de != "EF" or le < 8 or G.first_acct(ae) != 1:
             return _v("start-accepts-wrong-end", f"instruction {e} = {ixs[e]} is not end_flashloan of this program for this account")
         if p["flags"] & (G.MASK_DISABLED | G.MASK_FL | G.MASK_RECV | G.MASK_FROZEN):
             return _v("start-accepts-flagged", f"flash loan started on an account with flags {p['flags']}")
@@ -137,12 +140,12 @@ def oracle_sim(case, impl):
         if not (i < e < n):
             return _v("start-bad-index", f"start at {i} names end index {e} of {n}")
         te = ixs[e].split()
-        if te[0] != "EF" or int(te[1]) != a:
+        if te[0] not in ("EF", "EFX") or int(te[1]) != a:
             return _v("start-wrong-end", f"start for account {a} names instruction {e} = {ixs[e]}")
         if p["flags0"][a - 1] & (G.MASK_DISABLED | G.MASK_FROZEN):
             return _v("start-on-disabled-or-frozen", f"flash loan committed on account {a} with flags {p['flags0'][a - 1]}")
         # the flag is cleared by the first end for a after i
-        close = next(j for j in range(i + 1, n) if ixs[j].split()[0] == "EF" and int(ixs[j].split()[1]) == a)
+        close = next(j for j in range(i + 1, n) if ixs[j].split()[0] in ("EF", "EFX") and int(ixs[j].split()[1]) == a)
         brackets.append((a, i, close))
     for a, i, close in brackets:
         for j in range(i + 1, close):
